@@ -415,6 +415,9 @@ func (op *redirOp) exec(fm *Frame, fops *[]formOwnedPort) Exception {
 		if err != nil {
 			return fm.errorp(op, err)
 		}
+		if dst < 0 {
+			return fm.errorp(op, InvalidFD{FD: dst})
+		}
 	}
 
 	dstPort := growAccess(&fm.ports, dst)
@@ -435,7 +438,7 @@ func (op *redirOp) exec(fm *Frame, fops *[]formOwnedPort) Exception {
 			*dstPort = &Port{
 				// Ensure that writing to value output throws an exception
 				sendStop: closedSendStop, sendError: &ErrPortDoesNotSupportValueOutput}
-		case src >= len(fm.ports) || fm.ports[src] == nil:
+		case src < 0 || src >= len(fm.ports) || fm.ports[src] == nil:
 			return fm.errorp(op, InvalidFD{FD: src})
 		default:
 			*dstPort = fm.ports[src]
